@@ -345,12 +345,17 @@ func boundaries(plan sarama.BalanceStrategyPlan, ids []string, n int) ([]int64, 
 	return row, ok
 }
 
+var searchM = flag.Int("sm", 4, "search: max members")
+var searchT = flag.Int("st", 3, "search: max topics")
+var searchP = flag.Int("sp", 4, "search: max partitions per topic")
+
 func doSearch(seed int64, chains int) {
 	r := rand.New(rand.NewSource(seed))
 	found := 0
+	reverts, plans, withPicks := 0, 0, 0
 	for c := 0; c < chains && found < 5; c++ {
 		kind := []string{"honest", "stale", "forged"}[c%3]
-		w := bg.NewWorld(rand.New(rand.NewSource(r.Int63())), kind, 1+r.Intn(4), 1+r.Intn(3), 4)
+		w := bg.NewWorld(rand.New(rand.NewSource(r.Int63())), kind, 1+r.Intn(*searchM), 1+r.Intn(*searchT), *searchP)
 		for s := 0; s < 6; s++ {
 			if s > 0 {
 				w.Mutate()
@@ -363,6 +368,22 @@ func doSearch(seed int64, chains int) {
 			if run.RawPlan == nil {
 				break
 			}
+			plans++
+			if len(run.Oracle.Picks) > 0 {
+				withPicks++
+				np := 0
+				for _, t := range run.In.Topics {
+					np += len(t.Parts)
+				}
+				fmt.Println("PICK", kind, "step", s, "members", len(run.In.Members), "topics", len(run.In.Topics), "parts", np, "npicks", len(run.Oracle.Picks))
+			}
+			if run.Other["sticky.revert"] > 0 {
+				reverts++
+				if reverts <= 3 {
+					b, _ := json.Marshal(run)
+					fmt.Println("REVERT", kind, string(b))
+				}
+			}
 			if k, what := bg.Validity(&run.In, run.Plan); k != "" {
 				found++
 				b, _ := json.Marshal(run)
@@ -372,5 +393,30 @@ func doSearch(seed int64, chains int) {
 			w.Feedback(run.RawPlan)
 		}
 	}
-	fmt.Println("search done, found", found)
+	adv, advPicks, advRev := 0, 0, 0
+	for c := 0; c < chains*3; c++ {
+		in := bg.Adversarial(r, *searchM, *searchT, *searchP)
+		run := bg.RunSticky(in)
+		adv++
+		if len(run.Oracle.Picks) > 0 {
+			advPicks++
+		}
+		if run.Other["sticky.revert"] > 0 {
+			advRev++
+			if advRev <= 3 {
+				b, _ := json.Marshal(run)
+				fmt.Println("REVERT adversarial", string(b))
+			}
+		}
+		if run.Panic != "" {
+			fmt.Println("PANIC", run.Panic)
+		}
+		if k, what := bg.Validity(&run.In, run.Plan); k != "" && found < 8 {
+			found++
+			b, _ := json.Marshal(run)
+			fmt.Println("FAIL adversarial", k, what, stalePrevOwner(&run.In), string(b))
+		}
+	}
+	fmt.Println("adversarial", adv, "with-picks", advPicks, "reverts", advRev)
+	fmt.Println("search done, found", found, "reverts", reverts, "plans", plans, "with-picks", withPicks)
 }
